@@ -89,6 +89,10 @@ class Renderer:
         if k == "bv":
             return env[("bv", t[1])]
         if k == "attr":
+            if t[1] == ("free", "operator"):
+                # the function object operator.X, in the spelling the symbolic trees carry in their `op` field
+                name = OPERATOR_ALIASES.get(t[2], t[2])
+                return next((key for key in self.opnames if OPERATOR_ALIASES.get(key, key) == name), name)
             return self.attr(self.ev(t[1], env), t[2])
         if k == "tuple":
             return tuple(self.ev(x, env) for x in t[1])
@@ -112,6 +116,8 @@ class Renderer:
             return self.ev(base, env)[idx]
         if k == "cmp":
             a, b = self.ev(t[2], env), self.ev(t[3], env)
+            if t[1] in ("is", "is not") and isinstance(a, str) and isinstance(b, str):
+                return (a == b) == (t[1] == "is")
             return {"is": a is b, "is not": a is not b, "==": a == b, "!=": a != b, "<": None, "in": None}.get(t[1]) if t[1] in ("is", "is not", "==", "!=") else \
                 {"<": lambda: a < b, "<=": lambda: a <= b, ">": lambda: a > b, ">=": lambda: a >= b, "in": lambda: a in b, "not in": lambda: a not in b}[t[1]]()
         if k == "not":
